@@ -353,7 +353,7 @@ Fixpoint den (g : gen) (p : Z) : sample :=
 (* ------------------------------------------------------------------ *)
 (* running a history of operations and flattening everything observable to a list of Z,
    which is what the generated case files print (the harness decodes and evaluates it) *)
-Inductive sop := Next (n : Z) | Reset | Query.
+Inductive sop := Next (n : Z) | Reset | Query | Rest.   (* Rest = get_samples_remaining(): next(n_samples_remaining()) *)
 
 Definition enc_opt (o : option Z) : list Z := match o with None => [0] | Some z => [1; z] end.
 Definition enc_sample (s : sample) : list Z :=
@@ -373,6 +373,15 @@ Fixpoint run_ops (R : repairs) (g : gen) (s : option gst) (ops : list sop) : lis
         match gnext R g st n with
         | None => 2 :: run_ops R g s t       (* exception: state unchanged as far as the model goes *)
         | Some (st', out) => 1 :: enc_samples out ++ run_ops R g (Some st') t
+        end
+      | Rest =>
+        match remaining g st with
+        | None => 2 :: run_ops R g s t         (* ValueError: the waveform has no finite duration *)
+        | Some r =>
+          match gnext R g st r with
+          | None => 2 :: run_ops R g s t
+          | Some (st', out) => 1 :: enc_samples out ++ run_ops R g (Some st') t
+          end
         end
       | Reset =>
         match greset R g with
